@@ -248,6 +248,10 @@ def placeholder_texts():
     for f, g in itertools.product(forms[:4], repeat=2):
         out.append(f % chr(MAGIC_FIRST + 1) + " " + g % "b")
         out.append(f % "b" + " " + g % chr(MAGIC_FIRST))
+    # a lone surrogate (a str may hold one, e.g. from a file read with surrogateescape) in every name / argument position
+    for f in ["{{%s}}", "{{:%s}}", "{{a|%s}}", "{{a|%s=1}}", "[[%s]]", "{{#ifexist:%s|y|n}}", "{{PAGENAME:%s}}", "{{{%s|d}}}", "{{%s:x}}",
+              "{{Template:%s}}", "{{a%sb|x}}"]:    # (#invoke with such a name: C07's python_unicode follow-up, on a context with Lua)
+        out.append(f % "\ud800")
     return out
 
 
